@@ -673,7 +673,7 @@ def _archive_body(ctx, f):
     rowk = r0[0] if r0 else None
     loc = _sub_parts(rowk) if rowk else None
     la = _atom(loc[0]) if loc else None
-    if not loc or not ((la is not None and la[0] == "attr" and la[2] == "loc" and la[1] == pdf) or loc[0] == pdf):
+    if not loc or not ((la is not None and la[0] == "attr" and la[2] == "loc" and _base_key(la[1]) == pdf) or _base_key(loc[0]) == pdf):
         raise AnalysisError("create_topologies_archive: the row is not selected as topology_df.loc[<mask>] / topology_df[<mask>] (%s)" % (show_key(rowk)[:160] if rowk else "?"))
     cmps = [a for a in atoms_of(loc[1], tag="cmp") if a[1] == "=="]
     if not cmps:
@@ -683,8 +683,8 @@ def _archive_body(ctx, f):
         sides = [_sub_parts(a[2]), _sub_parts(a[3])]
         if not all(sides):
             raise AnalysisError("create_topologies_archive: row mask compares %s (unrecognised shape)" % show_key(a)[:160])
-        dfside = [s for s in sides if s[0] == pdf]
-        other = [s for s in sides if s[0] != pdf]
+        dfside = [s for s in sides if _base_key(s[0]) == pdf]
+        other = [s for s in sides if _base_key(s[0]) != pdf]
         if len(dfside) != 1 or len(other) != 1:
             raise AnalysisError("create_topologies_archive: row mask does not compare a topology_df column with a record field (%s)" % show_key(a)[:160])
         c1, c2 = _str_of_key(dfside[0][1]), _str_of_key(other[0][1])
